@@ -55,9 +55,10 @@ def xxh32(data, seed=0):
 
 @st.composite
 def cases(draw, tier="quick"):
-    B = 4096
+    # mostly the smallest block size (many blocks per byte); sometimes the largest one, whose raw blocks have the largest size word
+    B = draw(st.sampled_from([4096] * 24 + [1048576]))
     bits = draw(st.sampled_from([2, 3, 4, 4, 6, 8]))
-    n = draw(st.integers(6, 40))
+    n = draw(st.integers(6, 40)) if B == 4096 else draw(st.integers(4, 7))
     tail_lens = draw(st.lists(st.integers(1, B - 1), min_size=1, max_size=3))
     nodes = []
     recs = []
